@@ -5,11 +5,13 @@ predicates are evaluated on the implementation's trace.
 A second family (`bus`) brings up 1..17 real Terminal objects concurrently on one real EtherCat object (connect with a
 stub endpoint, real sendloop / Packet / process_packet / roundtrip) over a frame-level bus simulation in which other
 callers' datagrams (address probes of find_free_address, terminals that are gone, positional reads beyond the bus) go
-unanswered in the same frames; the trace judged is the one each simulated terminal saw at its own registers."""
+unanswered in the same frames; the trace judged is the one each simulated terminal saw at its own registers.
+A third family (`hist`) keeps 1..3 real Terminal objects alive and uses them again and again (to_operational, set_state,
+get_state) while the simulated terminals change state on their own; every call is judged on its own."""
 import asyncio
 
 ID = "C14"
-LEAN_MODULES = ["Ebv.Props.C14"]
+LEAN_MODULES = ["Ebv.Props.C14", "Ebv.Props.C14Hist"]
 MODEL_MODULES = ["Ebv.Model.AlDriver"]
 DRIVER = "Drivers/C14.lean"
 THEOREMS = [
@@ -18,6 +20,8 @@ THEOREMS = [
     "Ebv.C14.returns_target_after_ack", "Ebv.C14.raises_on_error", "Ebv.C14.never_falls_off",
     "Ebv.C14.Bus.runD_start", "Ebv.C14.Bus.devRun_full", "Ebv.C14.Bus.sys_projection",
     "Ebv.C14.Bus.sys_independent", "Ebv.C14.Bus.sys_complete",
+    "Ebv.C14.Hist.hist1_use", "Ebv.C14.Hist.hist1_call", "Ebv.C14.Hist.rest1_suffix", "Ebv.C14.Hist.hist_projection",
+    "Ebv.C14.Hist.hist_independent", "Ebv.C14.Hist.call_reads_first", "Ebv.C14.Hist.hist_call_spec",
 ]
 TRUSTED = ["hand-written model Ebv.AlDriver of Terminal.to_operational/get_state, tied by trace correspondence",
            "harness/vh/props/c14.py scripted responder; MachineState order and values regenerated into Ebv.Generated.Consts"]
@@ -29,7 +33,11 @@ RULE = ("scripts = target in {2,4,8} x list of (state,error,status) answers; gen
         "(0..k polls per transition, error injected at a random poll) and adversarial random answers; non-trivial = at least one write; "
         "bus: 1..17 such terminals started together (random order and lags) with 0..3 other callers whose datagrams nobody answers "
         "(find_free_address probes, an absent terminal, positional reads beyond the bus) or that read other registers, responses "
-        "delayed by 0..4 loop turns")
+        "delayed by 0..4 loop turns; "
+        "hist: 1..3 real Terminal objects kept alive and used 2..7 times in any order (to_operational to any target, set_state, "
+        "get_state) while the simulated terminals change state on their own between the uses (fall back with/without error flag, "
+        "jump, stay), plus every start x target x fall-back x second target on one object; a call that does not read first is "
+        "judged by what the terminal would have reported")
 
 
 class Blocked(Exception):
@@ -112,6 +120,9 @@ def oracle(ctx, case, trace, out, target=None, rs=None, who=""):
             prev = e[1]
     consumed = rs[:ri]
     if out == "returned":
+        if not consumed:
+            ctx.require(False, "returned although the terminal reported nothing", case, show(trace, out), "return")
+            return
         last = consumed[-1]
         if len(consumed) == 1 and acked:
             ctx.require(False, "returned right after the acknowledge", case, show(trace, out), "return")
@@ -296,6 +307,166 @@ def check_bus(ctx, c):
     return " || ".join(show(tr, out) for tr, out in res)
 
 
+# ---------------------------------------------------------------- histories: the same Terminal objects used again
+# Several real Terminal objects on one (scripted) bus object, each simulated terminal with its own script of AL status
+# answers; a history is a list of uses - to_operational(target), set_state(state), get_state() - of these objects one
+# after the other.  Between the uses the terminal does what it likes (falls back on its own, with or without the error
+# flag; the script says so).  Every to_operational call is judged by the property text on the answers the terminal gave
+# (or, for a call that does not ask first, would have given) from the start of THAT call.
+
+def run_hist(case):
+    """-> [(t, op, trace, out, ret, remaining script at the start of the use)]"""
+    from ebpfcat.ethercat import Terminal, MachineState, ECCmd, EtherCatError
+    scripts = case["scripts"]
+    ptr = [0] * len(scripts)
+    cur = {"trace": None}
+
+    class EC:
+        async def roundtrip(self, cmd, pos, offset, *args, data=None, idx=0):
+            await asyncio.sleep(0)
+            k = pos - 1000
+            assert cur["t"] == k, f"use of terminal {cur['t']} touched station {pos}"
+            if cmd is ECCmd.FPWR and offset == 0x120:
+                assert args[0] == "H"
+                cur["trace"].append(("w", args[1]))
+                return ()
+            if cmd is ECCmd.FPRD and offset == 0x130:
+                assert args == ("H2xH",)
+                cur["trace"].append(("r",))
+                if ptr[k] >= len(scripts[k]):
+                    raise Blocked()
+                s, e, st = scripts[k][ptr[k]]
+                ptr[k] += 1
+                return (s | (0x10 if e else 0), st)
+            raise AssertionError(f"unexpected bus access {cmd} {offset:x}")
+
+    async def go():
+        ec = EC()
+        terms = []
+        for k in range(len(scripts)):
+            t = Terminal(ec)
+            t.position = 1000 + k
+            terms.append(t)
+        res = []
+        for o in case["ops"]:
+            k = o["t"]
+            cur["t"], cur["trace"] = k, []
+            before = scripts[k][ptr[k]:]
+            ret = None
+            try:
+                if o["op"] == "to":
+                    ret = await terms[k].to_operational(MachineState(o["target"]))
+                    out = "none" if ret is None else "returned"
+                elif o["op"] == "set":
+                    ret = await terms[k].set_state(MachineState(o["state"]))
+                    out = "none" if ret is None else "returned"
+                else:
+                    ret = await terms[k].get_state()
+                    out = "returned"
+            except Blocked:
+                out = "blocked"
+            except EtherCatError:
+                out = "ethercat-error"
+            except ValueError:
+                out = "value-error"
+            res.append((k, o, cur["trace"], out, ret, before))
+        return res
+
+    return asyncio.run(go())
+
+
+def check_hist(ctx, c):
+    from ebpfcat.ethercat import MachineState
+    res = run_hist(c)
+    ncalls = sum(1 for r in res if r[1]["op"] == "to")
+    ctx.case(c, nontrivial=any(e[0] == "w" for r in res if r[1]["op"] == "to" for e in r[2]),
+             kind="hist:" + ("several-objects" if len(c["scripts"]) > 1 else "one-object") +
+                  ("+repeated-calls" if ncalls > len({r[0] for r in res if r[1]["op"] == "to"}) else ""))
+    ctx.stats["hist:uses"] += len(res)
+    for n, (k, o, trace, out, ret, before) in enumerate(res):
+        who = f"use {n} ({o['op']} on terminal object {k}): "
+        ctx.stats["hist:" + o["op"] + ":" + out] += 1
+        if o["op"] == "to":
+            rs = before
+            if trace[:1] != [("r",)] and before:
+                # the call did not ask: it is judged by what the terminal would have reported at that moment
+                ctx.stats["hist:call-without-initial-read"] += 1
+                trace, rs, who = [("r",)] + trace, before[:1] + before, who + "[no AL status read at the start of the call; first r = what the terminal would have reported] "
+            oracle(ctx, c, trace, out, o["target"], rs, who)
+        elif o["op"] == "set":
+            ctx.require(trace == [("w", o["state"])] and out == "none", who + "set_state is not one write of the state to AL control",
+                        c, show(trace, out), "set")
+        else:
+            if before and before[0][0] in (1, 2, 3, 4, 8):
+                s, e, st = before[0]
+                ctx.require(trace == [("r",)] and out == "returned" and tuple(ret) == (MachineState(s), e, st)
+                            and ret[0] is MachineState(s) and ret[1] is e,
+                            who + "get_state does not return the reported state, error flag and status", c,
+                            show(trace, out) + f" -> {ret}", "get")
+    return " ; ".join(f"{k}: " + show(trace, out) for k, _o, trace, out, _r, _b in res)
+
+
+def gen_hist(rng):
+    n = rng.choice([1, 1, 1, 2, 2, 3])
+    scripts = [[] for _ in range(n)]
+    # the simulated terminals: actual state and error flag, changing on their own between the uses
+    st = [[rng.choice([1, 2, 4, 8]), rng.random() < 0.2] for _ in range(n)]
+    ops = []
+    adversarial = rng.random() < 0.15
+    for _ in range(rng.choice([2, 2, 3, 3, 4, 5, 7])):
+        k = rng.randrange(n)
+        cur, err = st[k]
+        x = rng.random()
+        if x < 0.7:
+            target = rng.choice([2, 4, 8])
+            ops.append({"t": k, "op": "to", "target": target})
+            rs = scripts[k]
+            rs.append([cur, err, rng.randrange(0, 60)])
+            if err:
+                cur, err = 1, False
+            errat = rng.randrange(0, 8) if rng.random() < 0.2 else None
+            i = 0
+            for s in (2, 4, 8):
+                if s <= cur or err:
+                    continue
+                if cur >= target:
+                    break
+                for _ in range(rng.randrange(0, 3)):
+                    rs.append([cur, i == errat, 0]); err = err or i == errat; i += 1
+                    if err:
+                        break
+                if err:
+                    break
+                rs.append([s, i == errat, 0]); err = err or i == errat; i += 1
+                cur = s
+        elif x < 0.85:
+            v = rng.choice([1, 2, 4, 8])
+            ops.append({"t": k, "op": "set", "state": v})
+            if not err:
+                cur = v
+        else:
+            ops.append({"t": k, "op": "get"})
+            scripts[k].append([cur, err, rng.randrange(0, 60)])
+        # the terminal changes its state on its own (watchdog, sync manager error, power cycle) - or not
+        y = rng.random()
+        if y < 0.45:
+            lower = [s for s in (1, 2, 4, 8) if s <= cur]
+            cur, err = rng.choice(lower), rng.random() < 0.5
+        elif y < 0.55:
+            cur, err = rng.choice([1, 2, 4, 8]), rng.random() < 0.3
+        st[k] = [cur, err]
+    if adversarial:
+        for k in range(n):
+            scripts[k] = [[rng.choice([1, 2, 4, 8, 3, 0]) if rng.random() < 0.1 else rng.choice([1, 2, 4, 8]),
+                           rng.random() < 0.12, rng.randrange(0, 3)] for _ in range(rng.randrange(0, 14))]
+            if scripts[k] and scripts[k][0][0] in (0, 3):
+                scripts[k][0][0] = 1
+    elif rng.random() < 0.1:
+        k = rng.randrange(n)
+        scripts[k] = scripts[k][:rng.randrange(0, len(scripts[k]) + 1)]     # script ends early: blocked
+    return {"hist": 1, "scripts": scripts, "ops": ops}
+
+
 def gen(rng):
     target = rng.choice([2, 4, 8])
     mode = rng.random()
@@ -336,8 +507,22 @@ def run(ctx):
                 rs = [[start, e0, 0]] + [[s, False, 0] for s in (2, 4, 8) if s > (1 if e0 else start)]
                 cases.append({"target": target, "responses": rs})
     cases += [gen_bus(ctx.rng) for _ in range(ctx.n(400, 8000))]
+    cases += [gen_hist(ctx.rng) for _ in range(ctx.n(3000, 100000))]
+    # small exhaustive family: start x first target x what the terminal did meanwhile x second target, same object
+    for start in (1, 2, 4, 8):
+        for t1 in (2, 4, 8):
+            for fallen in (1, 2, 4, 8):
+                for ferr in (False, True):
+                    for t2 in (2, 4, 8):
+                        up = lambda a, t: [[s, False, 0] for s in (2, 4, 8) if a < s <= t]
+                        rs = [[start, False, 0]] + up(start, t1) + [[fallen, ferr, 5]] + up(1 if ferr else fallen, t2)
+                        cases.append({"hist": 1, "scripts": [rs], "ops": [{"t": 0, "op": "to", "target": t1},
+                                                                         {"t": 0, "op": "to", "target": t2}]})
     impl = []
     for c in cases:
+        if "hist" in c:
+            impl.append(check_hist(ctx, c))
+            continue
         if "bus" in c:
             impl.append(check_bus(ctx, c))
             continue
@@ -348,10 +533,13 @@ def run(ctx):
     model = ctx.drive(DRIVER, cases, "to_operational")
     if model is not None:
         for c, i, m in zip(cases, impl, model):
-            ctx.agree("to_operational trace" + (" of every terminal on a shared bus" if "bus" in c else ""), c, i, m)
+            ctx.agree("to_operational trace" + (" of every terminal on a shared bus" if "bus" in c else
+                                                 " of every use in a history" if "hist" in c else ""), c, i, m)
 
 
 def replay(ctx, case):
+    if "hist" in case:
+        return {"trace": check_hist(ctx, case)}
     if "bus" in case:
         return {"trace": check_bus(ctx, case)}
     trace, out = run_impl(case["target"], case["responses"])
@@ -364,7 +552,10 @@ LEVEL_TEXT = ("Lean 4 proof over a hand-written model of to_operational: for eve
               "acknowledged error), raise iff an error is reported while changing state. Tied to /repo by exact trace correspondence "
               "of the real coroutine under a scripted bus and by regenerating MachineState order/values into the proofs. For any number of "
               "terminals driven concurrently over one bus, under every schedule and with any other traffic, each terminal sees exactly its "
-              "single-terminal trace (sys_projection / sys_independent / sys_complete), checked on the real send loop with shared frames.")
+              "single-terminal trace (sys_projection / sys_independent / sys_complete), checked on the real send loop with shared frames. "
+              "For every history of uses of any number of Terminal objects (to_operational, set_state, get_state, in any order) each use is "
+              "the fresh use on what its terminal reports from then on - no memory of earlier uses, no influence of other objects "
+              "(hist1_use / hist_projection / hist_independent / hist_call_spec), checked on real Terminal objects kept alive.")
 LEVEL_NOTE = ("trusted: Lean kernel + propext/Classical.choice/Quot.sound; hand transcription Ebv.AlDriver validated (not verified) by "
               "differential traces on generated scripts; ec.roundtrip is the only bus access; answers with a nibble that is no state and "
               "BOOTSTRAP as start state are outside the property")
